@@ -1,4 +1,4 @@
-import GixModel.Lemmas.C39Long
+import GixModel.Lemmas.C39Total
 /-
 C39 — Pathspecs select the same paths as git.  PROPERTY THEOREMS ONLY.
 
@@ -234,6 +234,59 @@ example : (parseSpec [58, 40, 97, 116, 116, 114, 58, 116, 101, 120, 116, 32, 45,
 -- a second `attr:` element is refused by both
 example : initItem [58, 40, 97, 116, 116, 114, 58, 97, 44, 97, 116, 116, 114, 58, 98, 41, 120] = none
     ∧ parseSpec [58, 40, 97, 116, 116, 114, 58, 97, 44, 97, 116, 116, 114, 58, 98, 41, 120] = none := by decide
+
+/-- **parse_eq_git_total** — from a domain to EVERY pathspec string: whatever is not in one of the
+explicitly named classes is read alike by both parsers (same item, or both refuse — unknown keywords,
+a missing `)`, `glob` with `literal`, a second `attr:`, invalid attribute names/values included).
+`Excluded e` holds exactly when
+* `e` is the lone `/` (known finding: git refuses it, gitoxide selects everything);
+* `e = ":" ++ short magic` and what follows the short magic starts with `(` (known finding) or is a path
+  part that is not `PathPartOk` (under `top`: not clean; else: the lone `/`);
+* `e = ":(" ++ s` with a `)` in `s`, and the magic part (before the first `)`) contains a backslash
+  (the `\,` of `attr:` values is covered by `parse_eq_git`/`InDomain2` instead), or one of its
+  comma-separated elements is the `prefix:` keyword (known finding) or an `attr:` element whose body has
+  a TAB/CR or consists of spaces only (known findings), or the path part is not `PathPartOk` for the
+  `top` the elements determine. -/
+theorem parse_eq_git_total (e : Bytes) (hne : e ≠ []) (h : ¬ Excluded e) : ParseAgrees e :=
+  parse_total e hne h
+
+/-- **select_eq_git_total**: for ANY list of non-empty pathspec strings outside `Excluded`, any
+attribute lookup, any matcher with the two `wildmatch` laws and any index paths, gitoxide selects
+exactly what `git ls-files -- <specs>` lists and refuses the list exactly when git does. -/
+theorem select_eq_git_total (env : C39.Env) (hpre : WmPrefix env.wm) (hsl : WmSlash env.wm) (elems names : List Bytes)
+    (hp : ∀ e ∈ elems, e ≠ [] ∧ ¬ Excluded e) (hn : ∀ n ∈ names, NameOk n) :
+    gixSelect env elems names = gitSelect env elems names :=
+  select_pipeline env hpre hsl elems names (fun e he => parse_eq_git_total e (hp e he).1 (hp e he).2) hn
+
+-- non-vacuity: `:(foo,top)a` (an unknown keyword) and `:(top` (no closing parenthesis) are NOT excluded — both refuse
+example : ¬ Excluded [58, 40, 102, 111, 111, 44, 116, 111, 112, 41, 97] := by
+  intro h
+  obtain ⟨_, hl⟩ := h
+  have hfold : gixFold (some PSpec.default) (splitComma [] (magicPart [102, 111, 111, 44, 116, 111, 112, 41, 97])) = none := by decide
+  rcases hl with ⟨b, hb, rfl⟩ | ⟨w, hw, hw2⟩ | ⟨p, hp, _⟩
+  · revert hb; decide
+  · have hws : splitComma [] (magicPart [102, 111, 111, 44, 116, 111, 112, 41, 97]) = [[102, 111, 111], [116, 111, 112]] := by decide
+    rw [hws] at hw
+    simp only [List.mem_cons, List.mem_nil_iff, or_false] at hw
+    rcases hw with rfl | rfl
+    · rcases hw2 with h1 | ⟨h1, _⟩ <;> revert h1 <;> decide
+    · rcases hw2 with h1 | ⟨h1, _⟩ <;> revert h1 <;> decide
+  · rw [hfold] at hp; cases hp
+
+example : initItem [58, 40, 102, 111, 111, 44, 116, 111, 112, 41, 97] = none
+    ∧ parseSpec [58, 40, 102, 111, 111, 44, 116, 111, 112, 41, 97] = none := by decide
+
+example : ¬ Excluded [58, 40, 116, 111, 112] := by
+  intro h
+  obtain ⟨⟨b, hb, rfl⟩, _⟩ := h
+  revert hb; decide
+
+-- and the lone `/`, `:!(icase)x`, `:(prefix:0)a` ARE excluded
+example : Excluded [47] := rfl
+example : Excluded [58, 33, 40, 105, 99, 97, 115, 101, 41, 120] :=
+  ⟨false, true, [40, 105, 99, 97, 115, 101, 41, 120], by decide, Or.inl rfl⟩
+example : Excluded [58, 40, 112, 114, 101, 102, 105, 120, 58, 48, 41, 97] :=
+  ⟨⟨41, by decide, rfl⟩, Or.inr (Or.inl ⟨[112, 114, 101, 102, 105, 120, 58, 48], by decide, Or.inl (by decide)⟩)⟩
 
 /-- the same for any pathspecs on which the parsers agree -/
 theorem select_eq_git_of_parse (env : C39.Env) (hpre : WmPrefix env.wm) (hsl : WmSlash env.wm) (elems names : List Bytes)
